@@ -47,6 +47,28 @@ def run(ctx):
     ch = [n for l in loops for n in ast.walk(l) if isinstance(n, ast.Assign) and norm(n.targets[0]) == "change" and isinstance(n.value, ast.BoolOp)]
     ok = bool(ch) and "_in != node.live_in" in norm(ch[0].value) and "_out != node.live_out" in norm(ch[0].value) and "change or" in norm(ch[0].value)
     ctx.ob("C06.R1", s, "iteration continues while any live_in or live_out changed", ok, construct="fixpoint", detail=norm(ch[0].value) if ch else "")
+    # the fixed point is taken over EVERY node: nodes outside the worklist keep empty live sets (a region that cannot reach an exit - for(;;) - still has live values)
+    def all_nodes(e):
+        t = norm(e)
+        if t in ("self", "self.nodes"):
+            return True
+        if isinstance(e, ast.Call) and norm(e.func) in ("list", "tuple", "sorted", "reversed") and e.args and all_nodes(e.args[0]):
+            return True
+        return False
+    fl = [f for l in loops for f in walk_no_nested(l) if isinstance(f, ast.For) and any(isinstance(x, ast.Assign) and norm(x.targets[0]).endswith(".live_in") for x in ast.walk(f))]
+    ok = len(fl) == 1
+    det = ""
+    if ok:
+        it = fl[0].iter
+        if isinstance(it, ast.Name):
+            defs = [n for n in walk_no_nested(cl) if (isinstance(n, ast.Assign) and any(isinstance(t, ast.Name) and t.id == it.id for t in n.targets)) or (isinstance(n, ast.AugAssign) and norm(n.target) == it.id)]
+            muts = [c for c in ast.walk(cl) if isinstance(c, ast.Call) and isinstance(c.func, ast.Attribute) and norm(c.func.value) == it.id and c.func.attr in ("append", "extend", "remove", "pop", "insert", "clear")]
+            ok = bool(defs) and all(isinstance(n, ast.Assign) and all_nodes(n.value) for n in defs) and not muts
+            det = "; ".join(" ".join(norm(n).split())[:70] for n in defs) + ("; mutated by %s" % ", ".join(c.func.attr for c in muts) if muts else "")
+        else:
+            ok = all_nodes(it)
+            det = norm(it)
+    ctx.ob("C06.R1", s, "the fixed-point loop visits every node of the flow graph (its worklist is the whole node set, in any order)", ok, construct="worklist-all-nodes", detail=det)
     chain = [n for n in ast.walk(cl) if isinstance(n, ast.Assign) and norm(n.targets[0]) == "ins1.live_out"]
     ctx.ob("C06.R1", s, "inside a block an instruction's live_out is its successor's live_in", bool(chain) and norm(chain[0].value) == "ins2.live_in", construct="chain")
     last = [n for n in ast.walk(cl) if isinstance(n, ast.Assign) and norm(n.targets[0]) == "ins2.live_out"]
